@@ -45,6 +45,31 @@ def guards_any(cfg, node, method):
     return out
 
 
+def io_setters_rule(ctx, r, names):
+    """SIBLING rule shared with C10: IO.set_X forwards its argument to both outputs, on every path."""
+    io_cls = ctx.cls("clikit.api.io.io.IO")
+    for name in names:
+        m = io_cls.methods.get(name)
+        if m is None:
+            r.fail(io_cls.methods["__init__"], io_cls.node, "no IO." + name, "IO.%s missing" % name)
+            continue
+        prm = q.param_names(m)
+        cfg = ctx.cfg(m)
+        recvs = {}
+        for c in q.method_calls(m, name):
+            if is_self_attr(c.func.value) and c.args and isinstance(c.args[0], ast.Name) and c.args[0].id == prm[0]:
+                recvs.setdefault(c.func.value.attr, set()).update(n.id for n in cfg.nodes_of(c))
+        if not {"_output", "_error_output"} <= set(recvs):
+            r.fail(m, m.node, "IO.%s -> %s" % (name, sorted(recvs)), "IO.%s reaches only %s: the other stream ignores the switch" % (name, sorted(recvs) or "nothing"))
+            continue
+        skipped = [a for a in ("_output", "_error_output") if not cfg.post_dominated_by(cfg.entry.id, recvs[a])]
+        if skipped:
+            r.fail(m, m.node, "IO.%s can return without reaching %s" % (name, ", ".join(skipped)), "IO.%s has a path that returns without forwarding to %s (an early return on a test "
+                   "of one output's state, say): once the two outputs differ the switch no longer brings them together, so one stream stays quiet / stays loud" % (name, ", ".join(skipped)))
+        else:
+            r.ok("IO.%s forwards to both outputs on every path" % name)
+
+
 def run(ctx):
     p, cg = ctx.p, ctx.cg
     dac = ctx.cls("clikit.config.default_application_config.DefaultApplicationConfig")
@@ -254,20 +279,7 @@ def run(ctx):
     r = ctx.rule("C09-R6", "SIBLING", "IO.set_quiet / set_verbosity / set_formatter reach both outputs; "
                  "set_interactive reaches the field that read_line and is_interactive test", reference=7)
     io_cls = ctx.cls("clikit.api.io.io.IO")
-    for name in ("set_quiet", "set_verbosity", "set_formatter"):
-        m = io_cls.methods.get(name)
-        if m is None:
-            r.fail(io_cls.methods["__init__"], io_cls.node, "no IO." + name, "IO.%s missing" % name)
-            continue
-        prm = q.param_names(m)
-        recvs = set()
-        for c in q.method_calls(m, name):
-            if is_self_attr(c.func.value) and c.args and isinstance(c.args[0], ast.Name) and c.args[0].id == prm[0]:
-                recvs.add(c.func.value.attr)
-        if {"_output", "_error_output"} <= recvs:
-            r.ok("IO.%s forwards to both outputs" % name)
-        else:
-            r.fail(m, m.node, "IO.%s -> %s" % (name, sorted(recvs)), "IO.%s reaches only %s: the other stream ignores the switch" % (name, sorted(recvs) or "nothing"))
+    io_setters_rule(ctx, r, ("set_quiet", "set_verbosity", "set_formatter"))
     inp = ctx.cls("clikit.api.io.input.Input")
     setter = inp.methods.get("set_interactive")
     wr = {t.attr for n in walk_no_nested(setter.node) if isinstance(n, ast.Assign) for t in n.targets if is_self_attr(t)} if setter else set()
